@@ -54,7 +54,9 @@ func checkStringInSlice(c *Ctx, rule string) {
 				return t
 			}
 			a, b = strip(a), strip(b)
-			isEl := func(t *Term) bool { return (t.Op == "idx" || t.Op == "rangeval") && len(t.Args) == 2 && t.Args[0].Key() == hay.Key() }
+			isEl := func(t *Term) bool {
+				return (t.Op == "idx" || t.Op == "rangeval") && len(t.Args) == 2 && t.Args[0].Key() == hay.Key()
+			}
 			if a.Key() == needle.Key() && isEl(b) || b.Key() == needle.Key() && isEl(a) {
 				eq = true
 			}
